@@ -537,6 +537,28 @@ impl ThreadLocalActorSpawner {
         Self { send }
     }
 
+    /// verif: a spawner whose loop runs as a local task of the *current* executor
+    /// (same body as the wasm32 constructor)
+    #[cfg(feature = "verif_hooks")]
+    pub fn verif_new_local() -> Self {
+        let (send, mut recv) = crate::concurrency::mpsc_unbounded();
+
+        crate::concurrency::spawn_local(async move {
+            while let Some(SpawnArgs {
+                builder,
+                reply,
+                name: _name,
+            }) = recv.recv().await
+            {
+                let fut = builder();
+                let handle = crate::concurrency::spawn_local(fut);
+                _ = reply.send(AbortOnDropHandle::new(handle));
+            }
+        });
+
+        Self { send }
+    }
+
     #[allow(clippy::type_complexity)]
     async fn spawn(
         &self,
